@@ -117,7 +117,9 @@ Section Conc.
     | x :: t => match split_last t with Some (l', y) => Some (x :: l', y) | None => None end
     end.
 
-  Definition step (g : gstate) (t : tid) : gstate :=
+  (* [serve e]: is an error of kind e found in the cache (computed = false) returned as it is?  The code: never
+     ([step]); the parameter exists to refute the whole class of variants (Cache/ConcProofs.v) *)
+  Definition step_gen (serve : N -> bool) (g : gstate) (t : tid) : gstate :=
     if aborted g then g else
     let th := threads g t in
     match stack th with
@@ -150,6 +152,9 @@ Section Conc.
           | Ok v => if ty' =? ty                                        (* any.downcast() *)
                     then set_thread g t (mkThread ((r, ty, AtLeave (Ok v)) :: rest) (todo th) (results th))
                     else set_thread g t (mkThread (advance true r ty (prog ty r) rest) (todo th) (results th))
+          | Err e => if serve e                                         (* Err(e) if computed => …; Err(_) => load again *)
+                     then set_thread g t (mkThread ((r, ty, AtLeave (Err e)) :: rest) (todo th) (results th))
+                     else set_thread g t (mkThread (advance true r ty (prog ty r) rest) (todo th) (results th))
           | _ => set_thread g t (mkThread (advance true r ty (prog ty r) rest) (todo th) (results th))
           end
       | AtLeave o =>                                                    (* Defer: lock, pop, assert_eq *)
@@ -162,6 +167,8 @@ Section Conc.
                end
       end
     end.
+
+  Definition step : gstate -> tid -> gstate := step_gen (fun _ => false).
 
   Definition enabled (g : gstate) (t : tid) : bool :=
     negb (aborted g) &&
